@@ -3,15 +3,18 @@ import LunaVerif.Model.Memory.TxnFifo
 /-
 Model of `luna.gateware.usb.usb2.endpoints.stream.USBStreamOutEndpoint` (C13)
 = boundary detector + ack/nak/commit/discard glue + transactional FIFO (width 10: payload,
-bit 8 = last, bit 9 = first).  The code is modelled as it is, including
+bit 8 = last, bit 9 = first).  The model follows the repaired source (two `fix:` commits):
 
-* `transfer_active` is only updated on a FIFO write with `rx_last`, so a zero-length packet (which
-  produces no write at all) cannot end a transfer: after max-size packet + ZLP the flag stays 1 (F7);
-* `overflow` is cleared by the discard at `complete_out`, i.e. before `rx_ready_for_response` arrives
-  whenever the inter-packet delay is longer than the detector's two-cycle latency, so the response to
-  an overflowed (discarded) packet is ACK and the data toggle advances;
-* `rx_pid_toggle` is two bits wide and compared with the one-bit expected toggle;
-* `rx_cnt` is `Signal(range(max_packet_size))` and wraps at its bit width.
+* `overflow` stays set until the next token (`tokenizer.new_token`) instead of being cleared by the
+  discard at `complete_out`, so an overflowed packet is discarded *and* NAKed whatever the delay of
+  `rx_ready_for_response`;
+* `transfer_active` follows accepted packets only: a committed packet continues the transfer iff it was
+  a full one (`packet_is_full`, latched on the write of its last byte), a discarded packet changes
+  nothing, and an accepted (ACKed) zero-length packet — which never reaches the FIFO — ends it
+  (`packet_has_data` is cleared by the token and set by the first byte written or lost).
+
+Kept as in the source: `rx_pid_toggle` is two bits wide and compared with the one-bit expected toggle;
+`rx_cnt` is `Signal(range(max_packet_size))` and wraps at its bit width.
 -/
 namespace LunaVerif.StreamOutEndpoint
 open LunaVerif
@@ -30,6 +33,7 @@ structure In where
   tokIsOut    : Bool                  -- tokenizer.is_out
   tokIsPing   : Bool                  -- tokenizer.is_ping
   tokReady    : Bool                  -- tokenizer.ready_for_response
+  tokNew      : Bool                  -- tokenizer.new_token
   clearHalt   : Bool                  -- clear_endpoint_halt_in.enable & ~direction & number == endpoint
   ready       : Bool                  -- stream.ready
 
@@ -49,8 +53,10 @@ structure State where
   overflow       : Bool
   rxCnt          : Nat
   transferActive : Bool
+  packetIsFull   : Bool
+  packetHasData  : Bool
 
-def init : State := ⟨BoundaryDetector.init, TxnFifo.init 0, false, false, 0, false⟩
+def init : State := ⟨BoundaryDetector.init, TxnFifo.init 0, false, false, 0, false, false, false⟩
 
 /-- smallest `w ≥ start` with `2 ^ w ≥ n` (structural in the fuel, so the kernel can evaluate it) -/
 def bitsAux : Nat → Nat → Nat → Nat
@@ -118,16 +124,23 @@ def outOf (c : Config) (s : State) (i : In) : Out :=
 def step (c : Config) (s : State) (i : In) : State × Out :=
   let o := s.det.out
   let k := comb c s i
-  -- Count bytes in packet / transfer_active
+  let byteNow := o.next && o.valid
+  -- Count bytes in packet; remember whether the packet is a full one
   let rxCnt1 := if k.writeEn then (s.rxCnt + 1) % 2 ^ bitsFor c.mps else s.rxCnt
-  let ta := if k.writeEn && o.last then k.fullPacket else s.transferActive
-  -- overflow: If(data_is_lost) … Elif(commit | discard): overflow := 0, rx_cnt := 0 (later assignment wins)
-  let overflow' := if k.dataIsLost then true else if k.writeCommit || k.writeDiscard then false else s.overflow
-  let rxCnt' := if !k.dataIsLost && (k.writeCommit || k.writeDiscard) then 0 else rxCnt1
+  let pif' := if k.writeEn && o.last then k.fullPacket else s.packetIsFull
+  -- transfer_active: commit takes packet_is_full; an accepted zero-length packet clears it (later assignment)
+  let ta1 := if k.writeCommit && s.packetHasData then s.packetIsFull else s.transferActive
+  let ta' := if k.dataRequested && k.dataAccepted && !s.packetHasData && !byteNow then false else ta1
+  -- packet_has_data: cleared by a token, set by a byte for us (later assignment wins)
+  let phd1 := if i.tokNew then false else s.packetHasData
+  let phd' := if k.okayToReceive && byteNow then true else phd1
+  -- overflow: If(data_is_lost) 1, Elif(new_token) 0; rx_cnt cleared when the packet is done
+  let overflow' := if k.dataIsLost then true else if i.tokNew then false else s.overflow
+  let rxCnt' := if k.writeCommit || k.writeDiscard then 0 else rxCnt1
   -- toggle on ACKed data; ClearFeature(ENDPOINT_HALT) resets it (later assignment)
   let tg1 := if k.dataRequested && k.dataAccepted then !s.expectedToggle else s.expectedToggle
   let tg' := if i.clearHalt then false else tg1
-  (⟨BoundaryDetector.step s.det i.rx, (TxnFifo.step c.depth s.fifo (fifoIn c s i)).1, tg', overflow', rxCnt', ta⟩,
-   outOf c s i)
+  (⟨BoundaryDetector.step s.det i.rx, (TxnFifo.step c.depth s.fifo (fifoIn c s i)).1, tg', overflow', rxCnt', ta',
+    pif', phd'⟩, outOf c s i)
 
 end LunaVerif.StreamOutEndpoint
